@@ -18,6 +18,7 @@ PROP = {
              "or arrival of which not all are admitted, a registration while another arrival sits between its slot check and its registration, a shutdown with waiters, "
              "(real clock) a request expired by its TTL; distinct = canonical JSON of configuration + schedule"),
     "assumptions": [
+        "a quarter of the arrivals are held after their registration and before they start to wait for their verdict (hook queue.registered-before-wait) until the controller has processed the next tick or the shutdown: a verdict issued in that gap must still reach the request",
         "the gateway's log level (LOG_LEVEL: off in three cases of eight, else error / info / debug / trace; what is logged is thrown away, what a log statement does to build its arguments happens) is a generated part of every case of TestQueueSchedules: no answer may depend on it; a failing case reports its level",
         "one arrival in six of the virtual-clock schedules is a retried call: it carries the transaction id of an earlier request of the case that was allowed, has returned and whose clean-up has finished (the interceptors re-send x-lunar-req-id); it queues like any other arrival",
         "real-clock TTL unit: in three cases of five the process clock gains 60-250 ms per second on the runtime timers (the processing tick reads the clock, the TTL watcher waits on a runtime timer: a loaded machine fires timers late); the statement's bound (one verdict by TTL plus slack) is judged in real time as before",
@@ -32,7 +33,7 @@ PROP = {
         "schedules that drain while a verdicted request's clean-up is held (the shape of the repaired defect C06-F3, which killed the process) run in an isolated child copy of the test binary until 10 children survived, then in-process; the three witnesses of the repaired defects C06-F1..F3 run on every check and fail if a defect returns",
     ],
     "units": [
-        dict({"pkg": "c06", "test": "TestQueueSchedules", "quick": 2000, "thorough": 20000, "shards": 16}, **_CRASH),
+        dict({"pkg": "c06", "test": "TestQueueSchedules", "quick": 2000, "thorough": 20000, "shards": 16, "shrinktime": "5s", "quick_timeout": 1800}, **_CRASH),
         dict({"pkg": "c06", "test": "TestTTLRealClock", "quick": 12, "thorough": 100, "shards": 16, "shrinktime": "60s"}, **_CRASH),
         dict({"pkg": "c06", "test": "TestWitnessEqualPriorityInversion", "kind": "plain"}, **_CRASH),
         dict({"pkg": "c06", "test": "TestWitnessSlotCheckNotAtomic", "kind": "plain"}, **_CRASH),
